@@ -33,6 +33,20 @@ let rec shape b = function
     Buffer.add_string b (Printf.sprintf "(%s %s %s %s " (zs lo) (zs hi) (zs mx) (zs h));
     shape b l; Buffer.add_char b ' '; shape b r; Buffer.add_char b ')'
 
+let verbose = Array.length Sys.argv > 2 && Sys.argv.(2) = "-v"
+
+(* replay mode: both sides step by step *)
+let show_steps ops_s obs model_obs q model_q =
+  let ops = List.filter (fun s -> s <> "") (String.split_on_char ' ' ops_s) in
+  let a = String.split_on_char '/' obs and b = String.split_on_char '/' model_obs in
+  List.iteri (fun i o ->
+      let ia = try List.nth a i with _ -> "<missing>" and ib = try List.nth b i with _ -> "<missing>" in
+      Printf.printf "step %d %-12s impl  size,tree = %s\n%s model size,tree = %s%s\n" (i + 1) o ia
+        (String.make 20 ' ') ib (if ia = ib then "" else "   <-- DIFFERS")) ops;
+  (match q, model_q with
+   | Some s, Some m -> Printf.printf "queries impl : %s\nqueries model: %s%s\n" s m (if s = m then "" else "   <-- DIFFERS")
+   | _ -> ())
+
 let () =
   let ic = open_in Sys.argv.(1) in
   let n = ref 0 and bad = ref 0 in
@@ -79,6 +93,7 @@ let () =
                   Buffer.add_char qb (if can_update !st xl xh a c then '1' else '0')) qset)
             (inorder (root !st));
           Some (Buffer.contents qb) in
+      if verbose then show_steps ops_s obs model_obs q model_q;
       if model_obs <> obs || model_q <> q then begin
         incr bad;
         if !bad <= 20 then
